@@ -117,7 +117,9 @@ WEIRD_NAMES = ["été", "漢字", "a.b", "a-b", "_lead", "x.1", "naïve-Name", "
                # must not capture the generated code's own uses of the name
                "Option", "Vec", "String", "Box", "Rc", "Result", "Default", "Some", "None", "Ok", "Err", "Debug", "Clone",
                "option", "string", "date", "dateTime", "language", "int", "boolean", "Restrictions", "MultiRef", "SoapError",
-               "Header", "Body", "Envelope", "Fault"]
+               "Header", "Body", "Envelope", "Fault",
+               # reserved names wrapped in separators that case conversion drops
+               "_self", "self_", "_Option", "Vec-", "string.", "__default", "-rc-", "Self."]
 
 
 def weird_name_matrix():
